@@ -4,7 +4,9 @@ Forward taint with per-function summaries (DESIGN.md §2.9, A.6).
 INEXACT_AT_ONE: a value computed as (1/D) * N  -- the reciprocal of a non-constant times a count -- need not equal 1.0
 when N == D (e.g. (1.0/98)*98 != 1.0), whereas the true division N / D is exactly 1.0 for N == D in IEEE arithmetic.
 Sources: products with a reciprocal factor.  Propagation: locals, casts, indexing, arithmetic with constants, returns
-(function summaries, fixpoint), arguments (callee parameter taint, context-insensitive).  Sinks: comparison with the
+(function summaries, fixpoint; the return summary is CONTEXT-SENSITIVE in the parameters: "returns tainted" = own source reaches the return, or the
+argument bound to a pass-through parameter is tainted at this call site -- so a shared helper such as `_as_dtype(x, d)` does not smear the taint of one
+caller over all others), arguments (callee parameter taint for sinks INSIDE the callee, context-insensitive).  Sinks: comparison with the
 literal 1 / 1.0 using == != >= <  (`> 0`, `== 0`, `<= 1` are exact under the source shape and are not sinks).
 """
 import ast
@@ -25,8 +27,9 @@ class InexactTaint:
     def __init__(self, prog, funcs):
         self.prog = prog
         self.funcs = list(funcs)
-        self.ret = {}          # id(f) -> bool  (returns tainted)
-        self.param = {}        # id(f) -> set(param names tainted)
+        self.ret = {}          # id(f) -> bool  (an own source reaches the return, whatever the arguments)
+        self.ret_via = {}      # id(f) -> set(param names whose taint reaches the return)
+        self.param = {}        # id(f) -> set(param names that some caller passes a tainted value for; used for sinks inside f)
         self.by_name = {}
         for f in self.funcs:
             if f.cls is not None:
@@ -36,7 +39,12 @@ class InexactTaint:
         self.candidates = 0    # comparisons with literal 1 examined
 
     # ------------------------------------------------------------------ per function
-    def analyse(self, f):
+    def analyse(self, f, summary=False):
+        """summary=False: parameters tainted as callers pass them (for sinks inside f).  summary=True: parameters carry only their own symbolic label
+        ('P:<name>'), so that the result says which parameters flow to the return and whether an own source does."""
+        ps = f.params()
+        if summary:
+            return self._analyse_summary(f)
         tainted = set(self.param.get(id(f), ()))
         recip = set()
         srcs = []
@@ -75,6 +83,102 @@ class InexactTaint:
                         ret_t = True
         return tainted, recip, ret_t, srcs
 
+    def _analyse_summary(self, f):
+        """label-set version of analyse(): returns (own_source_reaches_return, params_reaching_return)"""
+        lab = {p_: {"P:" + p_} for p_ in f.params()}
+        recip = set()
+        stmts = [n for n in walk_no_nested(f.node) if isinstance(n, (ast.Assign, ast.AugAssign, ast.Return, ast.AnnAssign))]
+        stmts.sort(key=lambda n: (n.lineno, n.col_offset))
+        ret = set()
+        changed = True
+        it = 0
+        while changed and it < 6:
+            changed = False
+            it += 1
+            for st in stmts:
+                if isinstance(st, ast.Assign):
+                    ls = self.expr_labels(f, st.value, lab, recip)
+                    rv = self.is_recip(st.value, recip)
+                    for t in st.targets:
+                        for n in ast.walk(t):
+                            if isinstance(n, ast.Name) and isinstance(n.ctx, ast.Store):
+                                if not ls <= lab.get(n.id, set()):
+                                    lab.setdefault(n.id, set()).update(ls)
+                                    changed = True
+                                if rv and n.id not in recip:
+                                    recip.add(n.id)
+                                    changed = True
+                elif isinstance(st, ast.AugAssign) and isinstance(st.target, ast.Name):
+                    ls = self.expr_labels(f, st.value, lab, recip)
+                    if isinstance(st.op, ast.Mult) and self.is_recip(st.value, recip):
+                        ls = ls | {"SRC"}
+                    if not ls <= lab.get(st.target.id, set()):
+                        lab.setdefault(st.target.id, set()).update(ls)
+                        changed = True
+                elif isinstance(st, ast.Return) and st.value is not None:
+                    ret |= self.expr_labels(f, st.value, lab, recip)
+        return ("SRC" in ret), {l[2:] for l in ret if l.startswith("P:")}
+
+    def expr_labels(self, f, e, lab, recip):
+        """set of labels ('SRC' / 'P:<param>') a value may carry"""
+        if isinstance(e, ast.Name):
+            return set(lab.get(e.id, ()))
+        if isinstance(e, ast.Constant):
+            return set()
+        if isinstance(e, ast.BinOp):
+            out = self.expr_labels(f, e.left, lab, recip) | self.expr_labels(f, e.right, lab, recip)
+            if isinstance(e.op, ast.Mult):
+                l, r = e.left, e.right
+                if (self.is_recip(l, recip) and not _is_number(r)) or (self.is_recip(r, recip) and not _is_number(l)):
+                    out.add("SRC")
+            return out
+        if isinstance(e, ast.UnaryOp):
+            return self.expr_labels(f, e.operand, lab, recip)
+        if isinstance(e, ast.Subscript):
+            return self.expr_labels(f, e.value, lab, recip)
+        if isinstance(e, ast.IfExp):
+            return self.expr_labels(f, e.body, lab, recip) | self.expr_labels(f, e.orelse, lab, recip)
+        if isinstance(e, ast.Call):
+            out = set()
+            for t in self.targets(f, e):
+                if self.ret.get(id(t)):
+                    out.add("SRC")
+                via = self.ret_via.get(id(t), ())
+                if via:
+                    for pn, a in self._bind(t, e).items():
+                        if pn in via:
+                            out |= self.expr_labels(f, a, lab, recip)
+            if isinstance(e.func, ast.Attribute):
+                if e.func.attr in ("astype", "copy", "view", "reshape", "ravel", "flatten", "squeeze"):
+                    out |= self.expr_labels(f, e.func.value, lab, recip)
+                if e.func.attr == "type" and e.args:
+                    out |= self.expr_labels(f, e.args[0], lab, recip)
+            d = dump(e.func)
+            if d in ("numpy.float64", "numpy.float32", "numpy.asarray", "numpy.array", "float", "numpy.minimum", "numpy.maximum", "numpy.where"):
+                for a in e.args:
+                    out |= self.expr_labels(f, a, lab, recip)
+            return out
+        if isinstance(e, (ast.Tuple, ast.List)):
+            out = set()
+            for x in e.elts:
+                out |= self.expr_labels(f, x, lab, recip)
+            return out
+        return set()
+
+    @staticmethod
+    def _bind(t, call):
+        ps = t.params()
+        if ps and ps[0] in ("self", "cls"):
+            ps = ps[1:]
+        out = {}
+        for i, a in enumerate(call.args):
+            if i < len(ps) and not isinstance(a, ast.Starred):
+                out[ps[i]] = a
+        for k in call.keywords:
+            if k.arg:
+                out[k.arg] = k.value
+        return out
+
     def is_recip(self, e, recip):
         """1/D with non-constant D, or a name bound to one"""
         if isinstance(e, ast.Name):
@@ -108,6 +212,9 @@ class InexactTaint:
             for t in self.targets(f, e):
                 if self.ret.get(id(t)):
                     return True
+                via = self.ret_via.get(id(t), ())
+                if via and any(pn in via and self.expr_tainted(f, a, tainted, recip, srcs) for pn, a in self._bind(t, e).items()):
+                    return True
             # dtype casts and copies propagate:  dtype.type(x), x.astype(d), numpy.float64(x), x.copy()
             if isinstance(e.func, ast.Attribute):
                 if e.func.attr in ("astype", "copy", "view", "reshape", "ravel", "flatten", "squeeze") and \
@@ -139,10 +246,14 @@ class InexactTaint:
         for rnd in range(8):
             changed = False
             for f in self.funcs:
-                tainted, recip, ret_t, srcs = self.analyse(f)
-                if ret_t and not self.ret[id(f)]:
+                own, via = self._analyse_summary(f)
+                if own and not self.ret[id(f)]:
                     self.ret[id(f)] = True
                     changed = True
+                if not via <= self.ret_via.setdefault(id(f), set()):
+                    self.ret_via[id(f)] |= via
+                    changed = True
+                tainted, recip, ret_t, srcs = self.analyse(f)
                 # argument -> parameter taint
                 for n in walk_no_nested(f.node):
                     if isinstance(n, ast.Call):
